@@ -126,7 +126,7 @@ def main():
             "kind_free_text": "purpose-built static analyser: Python ast + call graph + guard contexts; Jinja template ASTs via the bundled parser; regex ASTs; clang JSON AST for the support headers",
         }],
         "checks": checks,
-        "notes": "All checks are static analyses of /repo's current working tree. Exit 0 ok / 1 VIOLATION / 2 ANALYSIS-ERROR (anchor missing or front-end failure - never a silent pass). Known genuine defects are listed in /verif/known_findings.json.",
+        "notes": "All checks are static analyses of /repo's current working tree. Exit 0 ok / 1 VIOLATION / 2 ANALYSIS-ERROR (anchor missing or front-end failure - never a silent pass). Known genuine defects are listed in /verif/known_findings.json. Tiers: quick decides every rule on the tree as it stands. thorough does the same (C14: on all 12 points of the option lattice and two C++ standards instead of 3 points) and then cross-examines the analysis itself: the property's rules are re-run on three behaviour-preserving transformations of the current tree built on the spot in a scratch directory (all locals / private parameters / template locals / macro parameters renamed; comparisons mirrored, if/else inverted and modules re-emitted from their ast; every template if/else inverted) and must produce the same obligations and discharges per rule - a disagreement is an ANALYSIS-ERROR (exit 2), never a VIOLATION. `./check --selftest` (not a registered command) additionally runs ~500 single-edit variants both ways.",
         "not_applicable": na,
     }
     (V / "MANIFEST.json").write_text(json.dumps(m, indent=1) + "\n")
